@@ -78,8 +78,13 @@ let parse_input (input : string) : coq_Z * bool * op list =
     (z_of_int !mt, !prod, Stdlib.List.map parse_op ops)
 
 (* ---------- printing (the syntax of harness/zz_verif/c12.go) ---------- *)
-let str_hname = function HEmpty -> "_" | HAuthorization -> "Authorization" | HCustom h -> "X-H" ^ dec_of_z h
-let str_tokv = function TEmpty -> "_" | TBearer t -> "Bearer+tok" ^ dec_of_z t | TRaw t -> "tok" ^ dec_of_z t
+(* header-name and token-value ids of a registration (harness: c12HdrName / c12TokVal), blanks as '+' *)
+let hdr_names = [ (3, "Authorization"); (4, "authorization"); (5, "AUTHORIZATION") ]
+let tok_vals = [ (4, "Basic+dXNlcjpwYXNz"); (5, "ApiKey+k-1"); (6, "Bearer+xyz"); (7, "") ]
+let hdr_str h = match Stdlib.List.assoc_opt (int_of_z h) hdr_names with Some s -> s | None -> "X-H" ^ dec_of_z h
+let tok_str t = match Stdlib.List.assoc_opt (int_of_z t) tok_vals with Some s -> s | None -> "tok" ^ dec_of_z t
+let str_hname = function HEmpty -> "_" | HAuthorization -> "Authorization" | HCustom h -> hdr_str h
+let str_tokv = function TEmpty -> "_" | TBearer t -> "Bearer+" ^ tok_str t | TRaw t -> (match tok_str t with "" -> "_" | s -> s)
 let str_status = function
   | SNone -> "-"
   | SOut (OStatus c) -> let c = dec_of_z c in if c = "200" then "200:ok" else c ^ ":no"
@@ -139,11 +144,29 @@ let num_after pre s =
     (let d = String.sub s n (String.length s - n) in
      if String.for_all (fun c -> c >= '0' && c <= '9') d then Some (z_of_string d) else None)
   else None
-let parse_hname s = if s = "_" then HEmpty else if s = "Authorization" then HAuthorization
-  else match num_after "X-H" s with Some h -> HCustom h | None -> raise (Malformed "header-name")
-let parse_tokv s = if s = "_" then TEmpty else
-    match num_after "Bearer+tok" s with Some t -> TBearer t | None ->
-    match num_after "tok" s with Some t -> TRaw t | None -> raise (Malformed "header-value")
+(* a received (name, value) pair back to the model's vocabulary.  The same text is the same configuration: the name
+   Authorization with a value "Bearer <token id>" is what a bearer registration stores; any other value under that name
+   can only come from a custom-header registration. *)
+let rev_assoc v l = Stdlib.List.find_map (fun (k, s) -> if s = v then Some k else None) l
+let raw_tok_id s =
+  match rev_assoc s tok_vals with Some k -> Some (z_of_int k) | None ->
+  match num_after "tok" s with Some t when int_of_z t <= 3 -> Some t | _ -> None
+let parse_tokv_raw s = if s = "_" then (match raw_tok_id "" with Some t -> TRaw t | None -> raise (Malformed "header-value"))
+  else match raw_tok_id s with Some t -> TRaw t | None -> raise (Malformed "header-value")
+let parse_bearer s =
+  let pre = "Bearer+" in let n = String.length pre in
+  if String.length s >= n && String.sub s 0 n = pre && raw_tok_id s = None then
+    (match raw_tok_id (String.sub s n (String.length s - n)) with Some t -> Some (TBearer t) | None -> None)
+  else None
+let parse_header name value : hname * tokv =
+  if name = "_" then (if value = "_" then (HEmpty, TEmpty) else raise (Malformed "header-name"))
+  else if name = "Authorization" then
+    (match parse_bearer value with Some b -> (HAuthorization, b) | None -> (HCustom (z_of_int 3), parse_tokv_raw value))
+  else match rev_assoc name hdr_names with
+    | Some k -> (HCustom (z_of_int k), (match parse_bearer value with Some b -> b | None -> parse_tokv_raw value))
+    | None -> (match num_after "X-H" name with
+        | Some h -> (HCustom h, (match parse_bearer value with Some b -> b | None -> parse_tokv_raw value))
+        | None -> raise (Malformed "header-name"))
 exception Post_format of string
 let parse_post s : post =
   match split_on '/' s with
@@ -154,7 +177,7 @@ let parse_post s : post =
     if b <> "ok" then raise (Post_format "body");
     let hs = if hs = "" then [] else
         Stdlib.List.map (fun kv -> match Stdlib.String.index_opt kv '=' with
-            | Some i -> (parse_hname (String.sub kv 0 i), parse_tokv (String.sub kv (i + 1) (String.length kv - i - 1)))
+            | Some i -> parse_header (String.sub kv 0 i) (String.sub kv (i + 1) (String.length kv - i - 1))
             | None -> raise (Malformed "header")) (split_on '&' hs) in
     (u, hs)
   | _ -> raise (Malformed "post")
@@ -170,7 +193,7 @@ let split_steps obs = Str.split_delim (Str.regexp_string " ; ") obs
 let class_name = function
   | FResponse -> "response" | FPresence -> "row-presence" | FErrors -> "errors-count" | FActive -> "active-flag"
   | FLastEmit -> "last-emit" | FPostMissing -> "post-missing" | FPostUnexpected -> "post-unexpected"
-  | FPostDuplicate -> "post-duplicate" | FAuthHeader -> "auth-header"
+  | FPostDuplicate -> "post-duplicate" | FAuthHeader -> "auth-header-not-as-registered"
   | FDeactivatedBeforeMax -> "deactivated-before-max-tries"
   | FLastEmitNotReported -> "last-emit-not-reported"
   | FNoauthNotPosted -> "noauth-not-posted"
@@ -214,7 +237,7 @@ let spec input obs =
            (String.concat "," (Stdlib.List.map (fun (n, c) -> dec_of_z n ^ ":" ^ class_name c) fs))
            (match blocked with Some b -> " then " ^ b | None -> ""))
     with
-    | Malformed ("header-name" | "header-value" as w) -> "FAIL auth-header unrecognised " ^ w
+    | Malformed ("header-name" | "header-value" as w) -> "FAIL auth-header-not-as-registered a credential header the target received is one that no registration of the case can produce: " ^ w
     | Malformed "post-url" -> "FAIL post-wrong-url a POST went to an address that is none of the registered url strings"
     | Malformed "wrong-url" -> "FAIL url-not-verbatim the endpoint answered with a webhook whose url is not the string the client sent"
     | Malformed w -> "FAIL malformed-observable " ^ w
